@@ -1015,6 +1015,13 @@ def replay_witnesses(ctx, kf, workdir):
     # 6 filesize whose text form raises
     outs = [run_writer(sch, p("w6." + sch), [F(size=2 * 10 ** 17, _generated=TS)], {})[2] for sch in ("csvfile", "line", "text")]
     hit("C20-filesize-text-form-raises", all(o is not None for o in outs), "exceptions %r" % (outs,))
+    # 7 a member field called `name` is shadowed by the GroupedRecord's own attribute
+    from flow.record import RecordDescriptor
+    from flow.record.base import GroupedRecord
+    N = RecordDescriptor("w/named", [("string", "name")])
+    g = GroupedRecord("grp", [N(name="field-value", _generated=TS)])
+    data, err, en = run_writer("csvfile", p("w7.csv"), [g], {"fields": "name"})
+    hit("C20-grouped-record-attribute-shadow", data is not None and py_csv_rows(data) == [["name"], ["grp"]], "csv output %r" % (data,))
     return seen
 
 
